@@ -1,6 +1,6 @@
 """C01 - see DESIGN.md §7 C01; processor family. Whv/Props/C01.lean also uses the quorum formulas translated from the
 contracts (published_accepted_on_chain), so the C07 facts are regenerated here as well."""
-from checks import proccommon, c07
+from checks import proccommon, c07, c12
 
 
 def gen(ctx):
@@ -10,5 +10,11 @@ def gen(ctx):
 def run(ctx):
     facts, ok = gen(ctx)
     ctx.cov["gen_facts"] = {k: {"source": v[2], "expr": v[1]} for k, v in facts.items() if not k.startswith("_")}
-    ctx.prove(families=("processor",))
+    ctx.prove(families=("processor", "db"))
     proccommon.run_processor(ctx, "C01", "")
+    # "... or backfill responses": FindMissingMessages with RpcBackfill must hand what a node served to the processor's inbound
+    # path (verified there, see the `inb` lines above) and never write the store itself
+    rule = ctx.cov["rule"]
+    c12.run_backfill_for(ctx, c12.BACKFILL_C01)
+    ctx.cov["rule"] = rule + (" | backfill: nodePrivilegedService.FindMissingMessages with RpcBackfill against scripted fake nodes; what reaches the "
+                              "inbound channel must be exactly what a node served for a missing id, and the store must be untouched by the call")
